@@ -554,6 +554,25 @@ pub fn dag_misc() -> DocSpec {
     finish_classic(b, catalog)
 }
 
+/// 60 ICC profile streams in a chain without a cycle, every /Alternate wrapped in four /Indexed
+/// levels (each hop is a nested typed load plus the colour-space levels in between)
+pub fn icc_chain() -> DocSpec {
+    let mut b = Builder::new();
+    let mut cs = Val::name("DeviceGray");
+    for _ in 0..60 {
+        let mut alt = cs;
+        for _ in 0..4 {
+            alt = Val::Arr(vec![Val::name("Indexed"), alt, Val::Int(0), Val::Str(vec![0])]);
+        }
+        let icc = b.add_stream(vec![("N".into(), Val::Int(1)), ("Alternate".into(), alt)], vec![0u8; 8]);
+        cs = Val::Arr(vec![Val::name("ICCBased"), Val::r(icc)]);
+    }
+    let cs_obj = b.add(cs);
+    let content = b.add_stream(vec![], b"/CS0 cs 0 sc 0 0 10 10 re f".to_vec());
+    let catalog = base(&mut b, vec![], Val::dict(vec![("ColorSpace", Val::dict(vec![("CS0", Val::r(cs_obj))]))]), Some(content));
+    finish_classic(b, catalog)
+}
+
 pub fn rich_all() -> DocSpec {
     let mut rng = Rng::new(7);
     families::rich(&mut rng, &families::RichOpts::all(), &Layout::classic())
@@ -578,6 +597,7 @@ pub fn all() -> Vec<(&'static str, DocSpec)> {
         ("info_dates", info_dates()),
         ("dag_trees", dag_trees()),
         ("dag_misc", dag_misc()),
+        ("icc_chain", icc_chain()),
         ("long_chain", long_chain()),
         ("rich", rich_all()),
     ]
